@@ -40,8 +40,9 @@ func Gen(store string) func(t *rapid.T) *Case {
 					case 0:
 						st.NestAt = rapid.IntRange(1, 3).Draw(t, "nestAt")
 						st.NestT = rapid.SampledFrom([]int{1, 2, 3}).Draw(t, "nestT")
-					case 1:
+					case 1, 2:
 						st.StoreNestT = rapid.SampledFrom([]int{1, 2}).Draw(t, "storeNestT")
+						st.StoreNestOp = rapid.IntRange(1, 8).Draw(t, "storeNestOp")
 					}
 					rs.Steps = append(rs.Steps, st)
 				} else {
